@@ -62,7 +62,7 @@ static void part_zero(const std::vector<unsigned>& ns) {
 }
 
 static void part_proto(const std::vector<unsigned>& ns, unsigned depth, unsigned steps) {
-    for (unsigned n : ns) for (int model = 0; model < 2; model++) for (int noise = 0; noise < 2; noise++) for (int var = 0; var < 2; var++) {
+    for (unsigned n : ns) for (int model = 0; model < 2; model++) for (int noise = 0; noise < 4; noise++) for (int var = 0; var < 2; var++) {   // noise: 0 none, 1 phase and amplitude, 2 amplitude only, 3 phase only
         Par q{n, 3 + (unsigned)var, model, var};
         std::string kase0 = mcx::Desc()("part", "proto")("model", MN[model])("n", n)("noise", noise)("var", var)("depth", depth)("steps", steps).str();
         if (!R.mine(kase0)) continue;
@@ -85,7 +85,7 @@ static void part_proto(const std::vector<unsigned>& ns, unsigned depth, unsigned
                 auto in = mkps_shift(n, 12, 0, 0, {1.f}, d.data()), out = mkps_shift(n, 12, 0, 0, {1.f});
                 auto in2 = mkps_shift(n, 12, 0, 0, {1.f}, d.data()), out2 = mkps_shift(n, 12, 0, 0, {1.f});
                 Phys p = phys(in, var);
-                auto dyn = mkdyn(in, out, q, p, noise ? 0.004f : 0.f, noise ? 0.002f : 0.f, modampl, modinc, steps);
+                auto dyn = mkdyn(in, out, q, p, (noise == 1 || noise == 3) ? 0.004f : 0.f, (noise == 1 || noise == 2) ? 0.02f : 0.f, (noise == 2 && var == 1) ? 0.f : modampl, modinc, steps);
                 auto sta = mkstat(in2, out2, q, p);
                 std::vector<std::array<float, 2>> queue; { auto cp = dyn->_next_modulation; while (!cp.empty()) { queue.push_back(cp.front()); cp.pop(); } }
                 if (queue.size() != steps) { R.violate(key + "/queue-length", kase0, std::to_string(queue.size()) + " entries for " + std::to_string(steps) + " steps"); continue; }
@@ -96,6 +96,22 @@ static void part_proto(const std::vector<unsigned>& ns, unsigned depth, unsigned
                         static_cast<RFKickMap&>(*sta)._calcKick(queue[applied][0], queue[applied][1]); sta->KickMap::apply();
                         if (memcmp(dyn->getForce(), sta->getForce(), 4 * n) != 0 || memcmp(out->getData(), out2->getData(), 4 * (size_t)n * n) != 0) {
                             R.violate(key + "/kick-is-not-entry-k", kase0, "history " + h2 + ": the kick of apply #" + std::to_string(applied) + " is not the one of queue entry " + std::to_string(applied)); ok = false; break; }
+                        {   // independent of RFKickMap::_calcKick: the force in force is the documented function of record k (single-precision tolerance) ...
+                            const double ph = queue[applied][0], am = queue[applied][1]; double worst = 0, mag = 0; std::vector<double> want(n);
+                            for (unsigned x = 0; x < n; x++) {
+                                if (model == 0) want[x] = (std::tan((double)dyn->_angle) * ((double)in->getAxis(0)->zerobin() - x) + std::tan((double)dyn->_angle) * ((double)dyn->_syncphase - ph) / dyn->_bl2phase / in->getAxis(0)->delta()) * am;
+                                else want[x] = dyn->_revolutionpart * (-am * dyn->_V_RF * std::sin(in->getAxis(0)->at(x) * dyn->_bl2phase + ph) + dyn->_V0) / in->getAxis(1)->delta() / in->getAxis(1)->scale("ElectronVolt");
+                                mag = std::max(mag, std::fabs(want[x]));
+                            }
+                            for (unsigned x = 0; x < n; x++) worst = std::max(worst, std::fabs(want[x] - (double)dyn->getForce()[x]));
+                            if (!(worst <= 2e-5 * mag + 1e-6)) { char b[200]; snprintf(b, 200, "history %s: force of apply #%u deviates from the kick of record %u (phase %.9g, amplitude %.9g) by %.3g (max |force| %.3g)", h2.c_str(), applied, applied, ph, am, worst, mag);
+                                R.violate(key + "/force-is-not-the-function-of-record-k", kase0, b); ok = false; break; }
+                            // ... and the grid is moved by exactly that force (fresh generic kick map given the force held)
+                            auto in3 = mkps_shift(n, 12, 0, 0, {1.f}, d.data()), out3 = mkps_shift(n, 12, 0, 0, {1.f});
+                            KickMap fresh(in3, out3, (SourceMap::InterpolationType)q.it, false, KickMap::Axis::y, nullptr);
+                            std::vector<float> off(dyn->getForce(), dyn->getForce() + n); fresh.swapOffset(off); fresh.apply();
+                            if (memcmp(out3->getData(), out->getData(), 4 * (size_t)n * n) != 0) { R.violate(key + "/grid-not-moved-by-the-force-held", kase0, "history " + h2 + ": apply #" + std::to_string(applied)); ok = false; break; }
+                        }
                         applied++;
                     } else {
                         auto rec = dyn->getPastModulation();
@@ -122,7 +138,7 @@ static void part_proto(const std::vector<unsigned>& ns, unsigned depth, unsigned
         }
         R.addnum("states", (double)states); R.addnum("transitions", (double)transitions);
     }
-    R.bound_done("proto: both models x n x noise{off,on} x 2 modulations x every {apply, flush} sequence up to depth " + std::to_string(depth) + " (queue length " + std::to_string(steps) + ")");
+    R.bound_done("proto: both models x n x noise{off, phase+amplitude, amplitude only, phase only} x 2 modulations (one without any phase modulation) x every {apply, flush} sequence up to depth " + std::to_string(depth) + " (queue length " + std::to_string(steps) + ")");
 }
 
 // long runs: the recorded waveform keeps the configured frequency (bound: single-precision rounding of the sine's argument)
